@@ -234,7 +234,7 @@ def run_shard(campaign, shard, nshards, seed, tier):
                     have, fill = 3, 0x77
                 else:
                     have, fill = max(0, size + delta), None
-                if size > 1000 and delta not in (0, -1, 'inf'):
+                if size > 1000 and delta not in (0, -1, 'inf', -size):        # -size: the generator ends inside the First Frame (12-bit and 32-bit length forms)
                     continue
                 bs = rng.choice([0, 1, 4])
                 # a third of the short transfers run under a rate limiter of two frames per window: frames are held back, never lost
